@@ -450,4 +450,32 @@ theorem shared_list_siblings (s : AliasCfg.St) (a b k : Nat) (hab : a ≠ b) (x 
 
 end AliasCfg
 
+/-! ## Non-vacuity of the theorems added in rounds 8-9 (hypothesis audit) -/
+
+section AuditR9
+open Clikit
+
+/-! non-vacuity of the alias-configuration theorems: the caller makes the list `["ls", "dir"]`, hands it to the commands
+0 and 1, adds an alias to command 1 and appends to its own list afterwards -/
+private def sL : AliasCfg.St := AliasCfg.step AliasCfg.St.init (.newList 0 ["ls".toList, "dir".toList])
+private def laterL : List AliasCfg.Op := [.setList 1 0, .add 1 "ll".toList, .appendList 0 "zz".toList]
+
+example : (AliasCfg.step sL (.add 1 "ll".toList)).cmds 0 = sL.cmds 0 := aliases_frame sL _ 0 (by decide)
+example : (AliasCfg.run sL laterL).cmds 0 = sL.cmds 0 := aliases_frame_run laterL sL 0 (by decide)
+/-- command 0 keeps exactly what the list held when `set_aliases` was called ... -/
+example : (AliasCfg.run (AliasCfg.step sL (.setList 0 0)) laterL).cmds 0 = ["ls".toList, "dir".toList] :=
+  set_list_keeps sL 0 0 laterL (by decide)
+/-- ... while command 1 (given the same list object, then one more alias) has three, and the caller's list four -/
+example : (AliasCfg.run (AliasCfg.step sL (.setList 0 0)) laterL).cmds 1 = ["ls".toList, "dir".toList, "ll".toList] ∧
+    (AliasCfg.run (AliasCfg.step sL (.setList 0 0)) laterL).lists 0 = ["ls".toList, "dir".toList, "zz".toList] := by
+  decide
+/-- `b.set_aliases(a.aliases)`, then `a.add_alias(..)`: `b` keeps what `a` had -/
+example : (AliasCfg.run (AliasCfg.step (AliasCfg.step sL (.setList 0 0)) (.setFrom 2 0)) [.add 0 "x".toList]).cmds 2 =
+    ["ls".toList, "dir".toList] :=
+  set_from_keeps (AliasCfg.step sL (.setList 0 0)) 2 0 [.add 0 "x".toList] (by decide)
+example : (AliasCfg.run sL [.setList 0 0, .setList 1 0, .add 1 "ll".toList]).cmds 0 = ["ls".toList, "dir".toList] :=
+  (shared_list_siblings sL 0 1 0 (by decide) "ll".toList).1
+
+end AuditR9
+
 end Clikit.Props.C03
